@@ -24,16 +24,21 @@ import (
 
 // Case is one member of the enumerated space.
 type Case struct {
-	Path     string `json:"path"`     // call path, see callPaths
-	Repo     string `json:"repo"`     // repository URL spelling (the credentials belong to it)
-	Chart    string `json:"chart"`    // chart URL spelling (index entry / href)
-	Pass     bool   `json:"pass"`     // pass-credentials
-	Kind     string `json:"kind"`     // request kind in focus: chart | prov | index
-	Redirect string `json:"redirect"` // none | evil | port : answer the request in focus with a 302
+	Path     string `json:"path"`          // call path, see callPaths
+	Repo     string `json:"repo"`          // repository URL spelling (the credentials belong to it)
+	Chart    string `json:"chart"`         // chart URL spelling (index entry / href)
+	Pass     bool   `json:"pass"`          // pass-credentials
+	Kind     string `json:"kind"`          // request kind in focus: chart | prov | index
+	Redirect string `json:"redirect"`      // none | evil | port : answer the request in focus with a 302
+	Seq      []Call `json:"seq,omitempty"` // call path getter-history only: the calls made on one getter (history.go)
 }
 
 func (c Case) canon() string {
-	return fmt.Sprintf("%s|%s|%s|%v|%s|%s", c.Path, c.Repo, c.Chart, c.Pass, c.Kind, c.Redirect)
+	s := fmt.Sprintf("%s|%s|%s|%v|%s|%s", c.Path, c.Repo, c.Chart, c.Pass, c.Kind, c.Redirect)
+	for _, cl := range c.Seq {
+		s += fmt.Sprintf("|%s,%s,%s,%v", cl.Href, cl.Opts, cl.Repo, cl.Pass)
+	}
+	return s
 }
 
 const (
@@ -236,7 +241,9 @@ func execCase(c Case) (res Result) {
 		if r := recover(); r != nil {
 			res.Err = fmt.Sprintf("panic: %v", r)
 		}
-		res.Recs = w.org.take()
+		if rest := w.org.take(); res.Recs == nil {
+			res.Recs = rest
+		}
 	}()
 	fail := func(err error) Result {
 		if err != nil {
@@ -253,6 +260,9 @@ func execCase(c Case) (res Result) {
 	provs := w.providers(tr)
 
 	switch c.Path {
+	case pHistory:
+		return execHistory(w, c) // records are collected and tagged per call there
+
 	case pGetter:
 		w.org.begin(sc)
 		g, err := getter.NewHTTPGetter(getter.WithTransport(tr), getter.WithTimeout(20*time.Second))
